@@ -203,3 +203,52 @@ func init() {
 		c.kindFilterScans(r, "C10.9", c.reachFromNames(attrRoots...), 15)
 	})
 }
+
+// copyCompleteRule: where content is copied into its place in a structure, all of it arrives: at a copy(dst, src) on the writing
+// side, len(dst) >= len(src) is proven from slice bounds, make sizes and the dominating tests (copy silently truncates, so an
+// object of n bytes copied into a window of n-1 keeps its old last byte). Not-decided copies are frozen per function in
+// baselines/copies.json; growth is reported.
+func copyCompleteRule(c *Ctx, r *Result, rule string) {
+	readers := c.readerSet(r)
+	per := map[string][]undecidedItem{}
+	n := 0
+	for _, fn := range c.LibFuncs() {
+		if readers[fn] {
+			continue
+		}
+		pk := shortPkg(fnPkgPath(fn))
+		if pk != "hdf5" && pk != "core" && pk != "structures" && pk != "writer" {
+			continue
+		}
+		var fb *FB
+		instrs(fn, func(in ssa.Instruction) {
+			call, ok := in.(*ssa.Call)
+			if !ok {
+				return
+			}
+			b, ok := call.Call.Value.(*ssa.Builtin)
+			if !ok || b.Name() != "copy" {
+				return
+			}
+			if fb == nil {
+				fb = c.FB(fn)
+			}
+			n++
+			d, s := fb.lenLin(call.Call.Args[0]), fb.lenLin(call.Call.Args[1])
+			if fb.ProveGE0At(d.add(s, -1), call) {
+				return
+			}
+			per[c.Name(fn)] = append(per[c.Name(fn)], undecidedItem{c.InstrPos(call), "copy: len(dst) = " + fb.linString(d) + " is not shown to be >= len(src) = " + fb.linString(s)})
+		})
+	}
+	if n < 40 {
+		r.Shortfall(c, rule, fmt.Sprintf("%s: only %d copy sites examined on the writing side", rule, n))
+	}
+	r.ApplyBaselineFile(verifDirGlobal, "copies", rule, "possibly-truncating-copy", per)
+}
+
+func init() {
+	txt := "content copied into its place arrives completely: at every copy(dst, src) on the writing side len(dst) >= len(src) is proven from slice bounds, allocation sizes and dominating tests (an overwrite whose window is one byte short keeps the old last byte and reports success); copies that are not decided are frozen per function and only growth is reported"
+	registry["C02"].Meta.Rules["C02.11"] = txt
+	registry["C02"].Rules = append(registry["C02"].Rules, func(c *Ctx, r *Result) { copyCompleteRule(c, r, "C02.11") })
+}
